@@ -88,6 +88,8 @@ func theSpec() apib.Spec {
 			{Method: "GET", Path: "/list", Produces: both, Security: &key, Params: []map[string]any{qp}},
 			// a produces entry that carries a parameter: what is negotiated is not what producers are keyed by
 			{Method: "GET", Path: "/param/{id}", Produces: []string{"text/plain; charset=utf-8", "application/json"}, Security: &none, Params: []map[string]any{idp, qp}},
+			// admitted only through a wildcard consumes entry: the consumer is looked up per request, outside the route's own table
+			{Method: "POST", Path: "/wild", Consumes: []string{"text/*"}, Produces: both, Security: &none, Params: []map[string]any{bp}},
 		},
 	}
 }
@@ -155,6 +157,7 @@ func newSite(w *world) *site {
 	api := untyped.NewAPI(specDoc)
 	api.RegisterConsumer("application/json", tagConsumer{w, "json", runtime.JSONConsumer()})
 	api.RegisterConsumer("text/plain", tagConsumer{w, "text", runtime.TextConsumer()})
+	api.RegisterConsumer("text/csv", tagConsumer{w, "csv", runtime.TextConsumer()})
 	api.RegisterProducer("application/json", tagProducer{w, "json", runtime.JSONProducer()})
 	api.RegisterProducer("text/plain", tagProducer{w, "text", runtime.TextProducer()})
 	api.RegisterAuth("key", security.APIKeyAuth("X-Key", "header", func(tok string) (interface{}, error) {
@@ -235,4 +238,55 @@ func canonLists(s string) string {
 		sort.Strings(items)
 		return "[" + strings.Join(items, " ") + "]"
 	})
+}
+
+// typedBind is what a generated (typed) server does for one request: look the route up and call
+// Context.BindValidRequest with its own binder, which reads the body with the consumer the context
+// selected for THIS request. It returns what the request observed.
+func (s *site) typedBind(rs reqSpec) string {
+	req := rs.build()
+	route, rr, ok := s.ctx.RouteInfo(req)
+	if !ok || route == nil {
+		return "no route"
+	}
+	seen := "binder not called"
+	err := s.ctx.BindValidRequest(rr, route, binderFunc(func(r *http.Request, rt *middleware.MatchedRoute) error {
+		id := "<none>"
+		if tc, ok := rt.Consumer.(tagConsumer); ok {
+			id = tc.id
+		} else if rt.Consumer != nil {
+			id = fmt.Sprintf("<foreign %T>", rt.Consumer)
+		}
+		var v string
+		var cerr error
+		if rt.Consumer != nil && r.Body != nil {
+			cerr = rt.Consumer.Consume(r.Body, &v)
+		}
+		seen = fmt.Sprintf("consumer=%s value=%q consume-err=%v", id, v, cerr)
+		return nil
+	}))
+	return fmt.Sprintf("%s err=%v", seen, canonLists(errText(err)))
+}
+
+func errText(e error) string {
+	if e == nil {
+		return "<nil>"
+	}
+	return e.Error()
+}
+
+type binderFunc func(*http.Request, *middleware.MatchedRoute) error
+
+func (f binderFunc) BindRequest(r *http.Request, rt *middleware.MatchedRoute) error { return f(r, rt) }
+
+// typedRequests: bodies for the wildcard route and for ordinary routes, through the typed flavour.
+func typedRequests() []reqSpec {
+	return []reqSpec{
+		{Name: "wild-plain", Method: "POST", Target: "/api/wild", Headers: map[string]string{"Content-Type": "text/plain", "Accept": "text/plain"}, Body: "plain body"},
+		{Name: "wild-csv", Method: "POST", Target: "/api/wild", Headers: map[string]string{"Content-Type": "text/csv", "Accept": "application/json"}, Body: "a,b"},
+		{Name: "wild-html-no-consumer", Method: "POST", Target: "/api/wild", Headers: map[string]string{"Content-Type": "text/html", "Accept": "text/plain"}, Body: "<p>"},
+		{Name: "wild-json-refused", Method: "POST", Target: "/api/wild", Headers: map[string]string{"Content-Type": "application/json", "Accept": "text/plain"}, Body: `"j"`},
+		{Name: "plain-text", Method: "POST", Target: "/api/plain?q=t", Headers: map[string]string{"Content-Type": "text/plain", "Accept": "text/plain"}, Body: "tb"},
+		{Name: "plain-json", Method: "POST", Target: "/api/plain?q=j", Headers: map[string]string{"Content-Type": "application/json", "Accept": "application/json"}, Body: `"jb"`},
+	}
 }
